@@ -212,10 +212,12 @@ def run_op(op, env):
             return norm_text('ok: ' + r.get_string(ast, with_failback=op.get('fb', True)))
         if k == 'flow':
             return _flow(op, env)
-    except MemoryError:
-        raise
-    except RecursionError:
-        raise
+    except (MemoryError, RecursionError) as e:
+        if str(e) == 'injected':
+            raise
+        # a genuine one (deeply nested input) is an ordinary outcome; its message says where the limit happened to
+        # be hit, which depends on the stack depth of the caller, so only the class is part of the observable
+        return 'err: %s' % type(e).__name__
     except Exception as e:
         return exc_obs(e)
     raise ValueError('unknown op kind %r' % (k,))
